@@ -3,6 +3,7 @@ pub mod alloc;
 pub mod capi;
 pub mod checks;
 pub mod gen;
+pub mod hostile;
 pub mod json;
 pub mod model;
 pub mod mon;
